@@ -30,13 +30,13 @@ PLAN = dict(
                  "operations of the two threads alternate; no two allocator calls overlap in time",
                  "raw requests above 1 GB are refused by the arena (plays the role of the OS)",
                  "huge pages off; x86-64 Linux only"],
-    floor=dict(quick=2000, thorough=25000),
+    floor=dict(quick=900, thorough=35000),
     tiers=dict(
-        quick=[fz("fz", 16, 750, 23),
-               fz("dbg", 16, 220, 10, cxxflags=["-DTBB_USE_DEBUG=1"])],
-        thorough=[fz("fz", 16, 13000, 340),
-                  fz("dbg", 16, 3500, 130, cxxflags=["-DTBB_USE_DEBUG=1"]),
-                  fz("fz-empty", 16, 2500, 80, seeds=False)],
+        quick=[fz("fz", 16, 700, 18),
+               fz("dbg", 16, 200, 8, cxxflags=["-DTBB_USE_DEBUG=1"])],
+        thorough=[fz("fz", 16, 13000, 320),
+                  fz("dbg", 16, 3500, 125, cxxflags=["-DTBB_USE_DEBUG=1"]),
+                  fz("fz-empty", 16, 2500, 75, seeds=False)],
     ),
 )
 TEXT = dict(
